@@ -173,6 +173,36 @@ def run(ctx):
                 return "F11 Triangle.locate returns parameters outside the reference triangle by rounding amounts for points on its boundary (no clamp)"
         return None
     sweep(ctx, "Triangle_locate", tri, [("Triangle.locate", lambda c: [enc_arr(c["rows"]), enc_arr([[c["p"][0]], [c["p"][1]]])])], judge_tri, known=known_tri)
+    # ---- malformed stream: a point of the wrong shape must raise the documented ValueError ("Dimension mismatch") whatever the
+    # configuration; the correct shape D x 1 is in the streams above
+    bad = []
+    for dim in (2, 3):
+        nodes = [[F(0), F(1), F(2)], [F(0), F(1), F(0)], [F(0), F(2), F(1)]][:dim]
+        pt = [F(1), F(1, 2), F(1, 4), F(3, 4), F(1, 8), F(7, 8)]
+        for shape in ([dim, 2], [dim], [dim, 1, 1], [dim + 1, 1], [1, dim], [dim, 0], [1, 1], [dim, 3]):
+            cnt = 1
+            for x in shape:
+                cnt *= x
+            bad.append({"op": "Curve.locate_shaped", "nodes": nodes, "vals": [float(x).hex() for x in (pt * 2)[:cnt]], "shape": shape, "dim": dim})
+    tnodes = [[F(0), F(1), F(0)], [F(0), F(0), F(1)]]
+    for shape in ([2, 2], [2], [2, 1, 1], [3, 1], [1, 2], [2, 3]):
+        cnt = 1
+        for x in shape:
+            cnt *= x
+        bad.append({"op": "Triangle.locate_shaped", "nodes": tnodes, "vals": [float(F(1, 4)).hex()] * cnt, "shape": shape, "dim": 2})
+    mstats = {"cases": len(bad), "failures": 0, "kind": "malformed stream: wrong-shape points must raise ValueError (Dimension mismatch)"}
+    for cfg in ("pure", "speedup"):
+        res = run_impl(cfg, [{"op": c["op"], "args": [enc_arr(c["nodes"]), c["vals"], c["shape"]]} for c in bad])
+        for c, r in zip(bad, res):
+            ok = r.get("exc") == "ValueError" and "Dimension mismatch" in r.get("msg", "")
+            if not ok:
+                mstats["failures"] += 1
+                if mstats["failures"] <= 3:
+                    ctx.violations.append({"kind": "property-fails-on-implementation", "sweep": "wrong_shape_points", "config": cfg, "op": c["op"],
+                                           "case": {"nodes": c["nodes"], "point_shape": c["shape"]}, "implementation_returned": r,
+                                           "verdict": "a %d-dimensional shape was given a point of shape %s: expected the documented ValueError "
+                                                      "(Dimension mismatch), got %s" % (c["dim"], c["shape"], r.get("exc") or "a normal return")})
+    ctx.corr["sweep:wrong_shape_points"] = mstats
     return finish(ctx, "PROVED (exact arithmetic, over R, every degree and dimension): a point of the curve is never pruned by the bisection - at "
                   "every depth it lies in the closed box of the sub-curve whose interval contains its parameter (restriction invariant from "
                   "C04 + convex hull from C01). The executable model of locate_point (rounds, spread cap on squares, Newton step, clamp; "
@@ -180,4 +210,4 @@ def run(ctx):
                   "configurations, including None for points outside the box. NOT PROVED: Newton accuracy; the FLOAT round trip is "
                   "refuted on the unchanged tree (F5) and triangle locate leaves the domain by rounding amounts (F11): known findings",
                   unproved=["accuracy of the Newton polish", "float round trip (finding F5)", "triangle locate (support sweep; finding F11)",
-                            "the documented error for points of the wrong shape is exercised by the repository's own tests only"])
+                            "the documented error for points of the wrong shape: malformed stream (8 shapes x 2 dimensions for curves, 6 for triangles), not a theorem"])
